@@ -164,11 +164,126 @@ CANARIES = [
 ]
 
 
+FP_DOMAIN = {'p': (1e-10, 1e10), 'r': (1e-8, 1e8), 'h': (-1e3, 1e3)}
+FP_CLAIM = 'P+ >= 0 and not NaN'
+FP_CANARIES = [('innovation covariance H P H^T - R (negative / NaN variance in binary64)', ('HP @ H.T + R', 'HP @ H.T - R'), 'quick'),
+               ('short-form covariance update P - K S K^T (equal over the reals, negative variance in binary64)',
+                ('U.dot(P).dot(U.T) + K.dot(R).dot(K.T)', 'P - K.dot(S).dot(K.T)'), 'thorough')]
+
+
+def _fp_term(variant, mutate=None):
+    """P+[0, 0] of the real kalman.correct executed on 1x1 operands of binary64 terms"""
+    import z3
+    import pyins.kalman as KF
+    from .. import fp, fpexec
+    N = fpexec._n_class()
+    O = fpexec.O
+    v = {n: fp.fpvar(n) for n in ('p', 'r', 'h', 'x', 'z')}
+    f = fpexec.load(KF, 'correct', N, variant, mutate)
+    x1, P1, inn = f(O([N(v['x'])]), O([[N(v['p'])]]), O([N(v['z'])]), O([[N(v['h'])]]), O([[N(v['r'])]]))
+    dom = []
+    for n, (lo, hi) in FP_DOMAIN.items():
+        dom += [z3.fpGEQ(v[n], fp.fpval(lo)), z3.fpLEQ(v[n], fp.fpval(hi))]
+    pp = P1[0, 0].e
+    return fpexec.smt2(dom, z3.Not(z3.fpGEQ(pp, fp.fpval(0.0))), ['p', 'r', 'h'])
+
+
+def fp_start(run):
+    """builds the QF_FP queries in this thread and hands them to cvc5 processes"""
+    from concurrent.futures import ThreadPoolExecutor
+    from .. import fpexec
+    import pyins.kalman as KF
+    timeout = 240 if run.tier == 'quick' else 1500
+    pool = ThreadPoolExecutor(6)
+    jobs = []
+    for variant in fpexec.VARIANTS:
+        jobs.append(('claim', variant, None, pool.submit(fpexec.cvc5_run, _fp_term(variant), timeout)))
+    for name, mut, tier in FP_CANARIES:
+        if tier == 'thorough' and run.tier != 'thorough':
+            continue
+        for variant in fpexec.VARIANTS[:1] if tier == 'quick' else fpexec.VARIANTS:
+            try:
+                jobs.append(('canary', variant, (name, mut), pool.submit(fpexec.cvc5_run, _fp_term(variant, mut), timeout)))
+            except KeyError as e:
+                if not any(c['name'] == name for c in run.canaries):
+                    run.canary(name, False, str(e))
+    run.encode(KF.correct)
+    return pool, jobs
+
+
+def fp_finish(run, started):
+    import math
+    import pyins.kalman as KF
+    from .. import common, fpexec
+    pool, jobs = started
+    run.assume('binary64 family: the real kalman.correct source executed on 1x1 operands of IEEE-754 binary64 terms (round to nearest even), decided as QF_FP by cvc5; '
+               'domain P in [1e-10, 1e10], R in [1e-8, 1e8], H in [-1e3, 1e3] (zero and subnormal H included); claim: the returned variance is >= 0 and not NaN. '
+               'BLAS/LAPACK on 1x1 operands are scalar formulas (dot/gemm: one product; potrf: sqrt; trsv: one division; potrs: both the reference form (b/L)/L and the '
+               'OpenBLAS form inv = 1/L, (b inv) inv are decided); the harness is compared bit for bit with the compiled code on random inputs in every run',
+               'OUTSIDE the binary64 family: dimensions above 1x1 (summation order and FMA use of the linked BLAS are not fixed), "never larger than the prior" in binary64 '
+               '(P+ <= P (1 + 2^-50) was tried: no verdict in 10 min), relative accuracy of the posterior')
+    # translator validation: which potrs model the linked LAPACK follows
+    val = common.run_replays([{'property': PROP, 'kind': 'fp_validate', 'n': 3000 if run.tier == 'quick' else 20000, 'seed': run.seed}])[0]
+    platform = None
+    if val.get('error'):
+        run.error('binary64 harness validation failed to run: %s' % val['error'])
+    else:
+        rates = val['mismatch_rate']
+        platform = min(rates, key=rates.get)
+        run.cov['fp_harness_vs_compiled_mismatch_rate'] = rates
+        if rates[platform] > 0.01:
+            run.error('binary64 harness does not reproduce the compiled kalman.correct on 1x1 inputs (best potrs model %s mismatches %.2f%%)' % (platform, 100 * rates[platform]))
+        run.sample({'fp_harness_validation': rates, 'platform_potrs_model': platform})
+    n_ok = 0
+    secs = 0.0
+    n_claims = 0
+    for kind, variant, can, fut in jobs:
+        verdict, vals, dt = fut.result()
+        secs += dt
+        run.queries += 1
+        if kind == 'canary':
+            name, mut = can
+            ok = verdict == 'sat'
+            detail = verdict
+            if ok:
+                f = fpexec.load(KF, 'correct', fpexec.F, variant, mut)
+                O_, F_ = fpexec.O, fpexec.F
+                pv = f(O_([F_(0.5)]), O_([[F_(vals['p'])]]), O_([F_(1.0)]), O_([[F_(vals['h'])]]), O_([[F_(vals['r'])]]))[1][0, 0].v
+                ok = not (pv >= 0)
+                detail = 'sat in %.1f s at p=%r r=%r h=%r: mutant returns %r' % (dt, vals['p'], vals['r'], vals['h'], pv)
+            if not ok and variant != fpexec.VARIANTS[0] and any(c['name'] == name and c['detected'] for c in run.canaries):
+                continue
+            if not any(c['name'] == name for c in run.canaries):
+                run.canary(name, ok, detail)
+            continue
+        n_claims += 1
+        what = 'binary64 1x1 [%s]: %s' % (variant, FP_CLAIM)
+        if verdict == 'unsat':
+            n_ok += 1
+            run.sample({'fp_claim': what, 'result': 'unsat', 'solver_s': round(dt, 2)})
+        elif verdict == 'sat':
+            spec = {'check': 'fp_scalar', 'kind': 'fp_scalar', 'point': {k: vals[k] for k in ('p', 'r', 'h')}, 'what': what}
+            res = common.run_replays([dict(spec, property=PROP)])[0]
+            if res.get('violated'):
+                run.violation(what + '; real code: %s' % (res.get('detail'),), common.write_replay(PROP, spec), res.get('detail'))
+            elif variant == platform or platform is None:
+                run.error('%s: solver model %s does not reproduce on the compiled code - inconclusive' % (what, spec['point']))
+            else:
+                run.sample({'fp_claim': what, 'result': 'sat for a potrs model the linked LAPACK does not follow; compiled code satisfies the claim at the model', 'point': spec['point']})
+                n_ok += 1
+        else:
+            run.unknown.append(what + ' (%s)' % (vals.get('raw') or 'no verdict'))
+    run.family('binary64 execution of kalman.correct on 1x1 operands (QF_FP, cvc5)', n_claims, n_ok, secs)
+    run.bounds['binary64 family'] = {'dimension': '1x1', 'domain': {k: list(v) for k, v in FP_DOMAIN.items()}, 'potrs models': list(fpexec.VARIANTS)}
+    pool.shutdown(wait=False)
+
+
 def run(run):
     import z3
     from .. import enga, common
     from .. import symreal as S
     from .c17 import _mut
+    fp_started = fp_start(run)
     box = {}
     for i in range(5):
         box['x%d' % i] = (-2, 2)
@@ -208,6 +323,7 @@ def run(run):
         rep.canary(name, obls, timeout_s=15)
     enga.restore()
     run.bounds.update({'dimensions': ['%dx%d' % c for c in cfgs]})
+    fp_finish(run, fp_started)
 
 
 def validate(rep):
@@ -254,6 +370,32 @@ def replay(spec):
         from ..validate import run_validate
         return run_validate(spec)
     from pyins import kalman
+    if spec['kind'] == 'fp_validate':
+        import math
+        from .. import fpexec
+        rng = np.random.RandomState(spec.get('seed', 0))
+        models = {v: fpexec.load(kalman, 'correct', fpexec.F, v) for v in fpexec.VARIANTS}
+        bad = {v: 0 for v in models}
+        F_, O_ = fpexec.F, fpexec.O
+        same = lambda a, b: a == b or (a != a and b != b)
+        for it in range(spec['n']):
+            p = 10 ** rng.uniform(-10, 10)
+            r = 10 ** rng.uniform(-8, 8)
+            h = 10 ** rng.uniform(-3, 3) * rng.choice([-1, 1])
+            x, z = rng.randn() * 10, rng.randn() * 10
+            if it % 4 == 0:
+                r = max(min(p * h * h * 2.0 ** -rng.randint(40, 60), 1e8), 1e-8)
+            a = kalman.correct(np.array([x]), np.array([[p]]), np.array([z]), np.array([[h]]), np.array([[r]]))
+            for v, f in models.items():
+                b = f(O_([F_(x)]), O_([[F_(p)]]), O_([F_(z)]), O_([[F_(h)]]), O_([[F_(r)]]))
+                if not (same(a[0][0], b[0][0].v) and same(a[1][0, 0], b[1][0, 0].v) and same(a[2][0], b[2][0].v)):
+                    bad[v] += 1
+        return {'violated': False, 'mismatch_rate': {v: bad[v] / spec['n'] for v in bad}}
+    if spec['kind'] == 'fp_scalar':
+        pt = spec['point']
+        P1 = kalman.correct(np.array([0.5]), np.array([[pt['p']]]), np.array([1.0]), np.array([[pt['h']]]), np.array([[pt['r']]]))[1]
+        bad = not (P1[0, 0] >= 0)
+        return {'violated': bool(bad), 'detail': ['kalman.correct(P=%r, H=%r, R=%r) returns the variance %r' % (pt['p'], pt['h'], pt['r'], float(P1[0, 0]))] if bad else []}
     pt = spec['point']
     pr = spec.get('params') or {}
     n, m = pr.get('n', 2), pr.get('m', 1)
